@@ -26,6 +26,8 @@ package common
 //@ -- same heap component as the input hashes)
 //@ recframe SumIn
 //@ recframe SumOut
+//@ -- reclimit (ext_induct.go): one unfolding per existing term instead of the unbounded chain Sum(n), Sum(n-1), ... for a symbolic n
+//@ reclimit SumIn, SumOut
 
 // ───────────── ordinary inputs ─────────────
 // OrdInput is what validateInputs itself tests (len(Genesis) == 0); on a decoded transaction (NilIfEmpty(Genesis), C06) it coincides
